@@ -143,7 +143,8 @@ def r6_option_mirror(rep, facts):
                 n += 1
                 ok = 'visit_some' in names and 'visit_none' not in names or bool(names & {'deserialize_option'})
                 rep.check(R, f'{imp["self_ty"]}|deserialize_option', ok, 'visit_some', f'`{it["def"]}` calls {sorted(x for x in names if x and x.startswith("visit_"))}: a present value is read back as None', facts.loc(b))
-    rep.check(R, 'deserialize_option|count', n >= 5, f'{n} explicit impls', f'only {n} explicit deserialize_option impls found')
+    want = 5 if ('toml' in facts.crates and facts.has_body('toml::de::from_str')) else (4 if 'toml' in facts.crates else 3)
+    rep.check(R, 'deserialize_option|count', n >= want, f'{n} explicit impls', f'only {n} explicit deserialize_option impls found (expected {want} in this configuration)')
     for d, b in facts.bodies.items():
         seg = last_seg(strip_generics(d))
         is_variant_ser = (seg == 'serialize_newtype_variant' and ('toml_edit::ser::value::ValueSerializer' in d or 'toml::value::ValueSerializer' in d)) or \
@@ -170,5 +171,10 @@ def rules(rep, facts):
     r6_option_mirror(rep, facts)
 
 
+def _witnesses(rep):
+    from .witness import report
+    report(rep, 'C07/R4b', 'type level (compile-fail witnesses): the public API stores only values in inline tables and arrays', ['w03_inline_table_takes_values_only', 'w04_array_takes_values_only'])
+
+
 def run(tier):
-    return run_property(PROP, tier, rules, configs_thorough=['default', 'perf', 'preserve_order', 'toml_display', 'edit_display_serde'])
+    return run_property(PROP, tier, rules, configs_thorough=['default', 'perf', 'preserve_order', 'toml_display', 'edit_display_serde'], extra=_witnesses if tier == 'thorough' else None)
